@@ -274,6 +274,15 @@ theorem circleFast_eq (r cx cy : Rat) (xs ys : List Rat) :
   have hZ := (hX.zip_row_col hY (· + ·) rfl rfl rfl rfl).map (fun v => decide (v ≤ sq r))
   exact hZ.ravel_map_eq b2r _ (fun i j hi hj => rfl)
 
+theorem halfFast_eq (gt : Bool) (a b c : Rat) (xs ys : List Rat) :
+    halfFast gt a b c xs ys = (sepPoints xs ys).map (val (.halfplane gt a b c)) := by
+  unfold halfFast
+  have hX := (Bc.row xs ys.length).map (fun x => a * x)
+  have hY := (Bc.col ys xs.length).map (fun y => b * y)
+  have hZ := (hX.zip_row_col hY (· + ·) rfl rfl rfl rfl).map
+    (fun v => if gt then decide (v > c) else decide (v < c))
+  exact hZ.ravel_map_eq b2r _ (fun i j hi hj => by cases gt <;> rfl)
+
 theorem rectFast_eq (hx hy cx cy : Rat) (xs ys : List Rat) :
     rectFast hx hy cx cy xs ys = (sepPoints xs ys).map (val (.rect hx hy cx cy)) := by
   unfold rectFast
